@@ -2225,6 +2225,7 @@ func (s *Server) ServeConn(c net.Conn) error {
 	defer s.releaseConcurrency()
 
 	s.open.Add(1)
+	s.setState(c, StateNew)
 
 	err := s.serveConnCounted(c, false)
 
